@@ -25,10 +25,16 @@ def frame(ftype, payload):
     return varint(ftype) + varint(len(payload)) + payload
 
 
+# optional hook: callable is_client -> QuicLoggerTrace or None, used when no logger is passed (C20)
+LOGGER_FACTORY = None
+
+
 class StubQuic:
     def __init__(self, is_client, logger=None, max_datagram_frame_size=65536):
         from aioquic.quic.configuration import QuicConfiguration
 
+        if logger is None and LOGGER_FACTORY is not None:
+            logger = LOGGER_FACTORY(is_client)
         self.configuration = QuicConfiguration(is_client=is_client)
         self._quic_logger = logger
         self._remote_max_datagram_frame_size = max_datagram_frame_size
